@@ -27,6 +27,7 @@ def step (op : String) (gs : List (List Int)) : String :=
   match op, gs with
   | "normstats", [[groups], [b, len], data] =>
     if data.length ≠ b.toNat * len.toNat then "err BadOp" else
+    if groups.toNat = 0 ∨ len.toNat % groups.toNat ≠ 0 then "err RuntimeError" else
     okG (normBatch groups.toNat (rows b.toNat len.toNat data))
   | "reduce", [[coil, npix], s, x] =>
     okG [unpairs ((perPixel coil.toNat npix.toNat (pairs s) (pairs x)).map reducePix)]
